@@ -223,24 +223,23 @@ def eval_term(t, env):
     return apply_label(t[0], [eval_term(a, env) for a in t[1:]])
 
 
-def outcomes(terms, env, n, lost=()):
+def outcomes(terms, env, n, trace=None):
     """ what evaluating the terms one after the other delivers: canonical items + how it ends.
-        `lost`: the terms the terminating next() computes and throws away (model only): python evaluates
-        them too, so an element operation that raises there surfaces instead of the end """
+        `trace` (from the model): for every next() the element computations python performs, in order,
+        including those whose result is thrown away (the item of `a` in map(f, a, b) when `b` has ended):
+        an element operation that raises there surfaces at that next() """
     items = []
-    for t in terms:
+    steps = max(len(terms), len(trace) if trace is not None else 0)
+    for k in range(steps):
         try:
-            items.append(canon(eval_term(t, env)))
+            if trace is not None and k < len(trace):
+                for t in trace[k]:
+                    eval_term(t, env)
+            if k < len(terms):
+                items.append(canon(eval_term(terms[k], env)))
         except Exception as e:
             return {"items": items, "end": "err:" + err_kind(e)}
-    if len(terms) >= n:
-        return {"items": items, "end": "limit"}
-    for t in lost:
-        try:
-            eval_term(t, env)
-        except Exception as e:
-            return {"items": items, "end": "err:" + err_kind(e), "from_lost": True}
-    return {"items": items, "end": "stop"}
+    return {"items": items, "end": "limit" if len(terms) >= n else "stop"}
 
 
 # ------------------------------------------------------------------------------------------------
@@ -532,7 +531,7 @@ def request(c):
     return {"entry": c["entry"]}
 
 
-def _cmp_side(c, io, side, label, env, leaves, with_reads, lost=None):
+def _cmp_side(c, io, side, label, env, leaves, with_reads, trace=None):
     """ compare the impl observation with one side (model / spec) of the driver payload """
     out = []
     n = take_n(c)
@@ -548,7 +547,7 @@ def _cmp_side(c, io, side, label, env, leaves, with_reads, lost=None):
         return out
     if not io["type_is_stream"]:
         out.append("impl result is not a Stream")
-    exp = outcomes(side["items"], env, n, side.get("lost", ()) if lost is None else lost)
+    exp = outcomes(side["items"], env, n, side.get("trace") if trace is None else trace)
     if exp["items"] != io["items"] or exp["end"] != io["end"]:
         k = next((i for i, (a, b) in enumerate(zip(exp["items"], io["items"])) if a != b), min(len(exp["items"]), len(io["items"])))
         out.append("%s differs at index %d: impl %s (%d items, end=%s) vs %s %s (%d items, end=%s)" % (
@@ -578,9 +577,9 @@ def compare_expr(c, io, drv):
         if "err" not in io:
             out.append(("spec", "spec: not a Stream expression (%s) but impl delivered %r" % (spec["sort"], io.get("items"))))
     else:
-        # element operations that raise are outside the property; which exception surfaces at the end is
-        # predicted by the model (its discarded items), so the spec side borrows that list
-        for d in _cmp_side(c, io, spec, "spec", env, leaves, False, lost=drv["model"].get("lost", ())):
+        # element operations that raise are outside the property; which exception surfaces where is
+        # predicted by the model (order of the element computations), so the spec side borrows that trace
+        for d in _cmp_side(c, io, spec, "spec", env, leaves, False, trace=drv["model"].get("trace")):
             out.append(("spec", d))
         if "err" not in io and not io["end"].startswith("err"):
             n = take_n(c)
